@@ -241,3 +241,39 @@ def parse_text(t):
     r = seq("")
     assert pos[0] == len(t), t[pos[0]:]
     return r
+
+
+def lang_compare(pairs, stats=None, K=2):
+    """pairs: list of (astA, astB).  For each pair decide by TLC whether Jobs_K(A) and Jobs_K(B) are the same language
+    at bound K: generation on both, then cross trace validation (loops unbounded in the acceptor).
+    Returns a list of None (equal) or {"why", "job"}."""
+    need = {}
+    for a, b in pairs:
+        for x in (a, b):
+            need.setdefault(puml.to_text(x), x)
+    keys = list(need)
+    gj, _ge = jobdef.gen_jobs([need[k] for k in keys], K, stats=stats)
+    jobs_of = {k: gj[i] for i, k in enumerate(keys)}
+    alld = [need[k] for k in keys]
+    pos = {k: i for i, k in enumerate(keys)}
+    traces, owner = [], []
+    for pi, (a, b) in enumerate(pairs):
+        ka, kb = puml.to_text(a), puml.to_text(b)
+        if canon_ast(a) == canon_ast(b):
+            continue
+        ca = {jobdef.canon(j) for j in jobs_of[ka]}
+        cb = {jobdef.canon(j) for j in jobs_of[kb]}
+        for j in jobs_of[ka]:
+            if jobdef.canon(j) not in cb:
+                traces.append((pos[kb], j))
+                owner.append((pi, "job of the first diagram rejected by the second"))
+        for j in jobs_of[kb]:
+            if jobdef.canon(j) not in ca:
+                traces.append((pos[ka], j))
+                owner.append((pi, "job of the second diagram rejected by the first"))
+    acc = jobdef.validate(alld, traces, stats=stats)
+    out = [None] * len(pairs)
+    for n, (pi, why) in enumerate(owner):
+        if n not in acc and out[pi] is None:
+            out[pi] = {"why": why, "job": jobdef.job_json(traces[n][1])}
+    return out, len(traces)
